@@ -250,6 +250,38 @@ CLAIMS = {
          'demands within the worker size; _dispatch_proc/_dispatch_shell (real '
          'sub-processes), MPI workers and request time-outs are outside.',
     design='4/C20'),
+ 'C09': dict(
+    text='Bounded symbolic execution of the real launch methods (Fork, SSH, RSH, MPIRun '
+         'incl. MPT/RSH/CCMRUN, MPIExec incl. host file/-f/PALS/rank file, Srun, APRun, '
+         'CCMRun, IBRun; instances via object.__new__ + real init_from_info): the '
+         'placement (1..3 ranks, node per rank over 3 nodes, core mask over 4 cores, '
+         'GPUs) and the launcher flavour are solver variables; a reader per launcher '
+         'extracts process count, hosts and pinned cores from the command and any '
+         'host/rank/node file it references (in-memory), which must equal the placement; '
+         'commands are generated on a fresh instance and after another task (history '
+         'independence); can_launch / ResourceManager.find_launcher must refuse what a '
+         'method cannot place; 41..44 ranks cross the literal host-list thresholds.',
+    note="Trusted: CrossHair/z3 path exhaustion; the readers encode the launchers' "
+         'documented option syntax; ibrun -o offset semantics, JSRUN/ERF, PRTE, Flux, '
+         'Dragon, mpirun_dplace are outside the claim.',
+    design='4/C09'),
+ 'C10': dict(
+    text='Bounded symbolic execution of the real script construction code: (Q1) '
+         'argument strings over a 10-character alphabet (space, quotes, backslash, glob '
+         'characters, non-ASCII, empty string) up to length 3 (thorough 4) are quoted by '
+         'LaunchMethod.get_exec/_create_arg_string/ru.sh_quote and read back by a POSIX '
+         'word reader; (Q2) the exec script text assembled by the real _get_rp_env, '
+         '_get_rank_ids, _get_task_env, _extend_pre_exec, _get_prep_exec, _get_exec for '
+         'a symbolic description shape is executed by a line-level reader (RP_* '
+         'variables, ordering, per-rank commands, failure propagation, exit code, '
+         'OMP_NUM_THREADS / CUDA_VISIBLE_DEVICES); (Q3) Popen._handle_task stdout/stderr '
+         'placement and the launch block (_get_launch/_get_prep_launch).',
+    note='bash is not executed: the trusted base is the stated reader for exactly the '
+         'line forms these functions emit (an unreadable line is a harness error); `$` '
+         'and backquote in arguments are excluded (sh_quote documents that it does not '
+         'neutralise them); the assembly used by the harness is validated against the '
+         'real _create_exec_script on import.',
+    design='4/C10'),
 }
 
 NOT_YET = 'check not built yet in this session (see DESIGN.md section 4 for the plan)'
